@@ -562,8 +562,9 @@ func TestVerif_C32(t *testing.T) {
 			{"send-bidi", []string{"bidi", "accepted"}, sendOps, vx.Pick(c, 4, 5), c32SendGen{}, c32ExecSend, nil},
 			// seeded start state: 2 bytes received, both read, the second one through the lock-free fast path
 			{"recv-after-fast-read", []string{"uni", "bidi"}, recvOps, vx.Pick(c, 3, 4), c32RecvGen{m: c32RecvModel{fs: -1}}, c32ExecRecv, []string{"d+", "rd1", "rd1"}},
-			{"recv", []string{"uni", "bidi"}, recvOps, vx.Pick(c, 5, 6), c32RecvGen{m: c32RecvModel{fs: -1}}, c32ExecRecv, nil},
+			// finer STREAM alphabet, one level shallower; before the deep coarse part so that a run cut short by the deadline loses the deepest level last
 			{"recv-ranges", []string{"uni", "bidi"}, rangeOps, vx.Pick(c, 4, 5), c32RecvGen{m: c32RecvModel{fs: -1}}, c32ExecRecv, nil},
+			{"recv", []string{"uni", "bidi"}, recvOps, vx.Pick(c, 5, 6), c32RecvGen{m: c32RecvModel{fs: -1}}, c32ExecRecv, nil},
 		}
 		for _, p := range parts {
 			vx.Enumerate(c, p.name, vx.Opts{Serial: true, Crumb: true}, func(yield0 func(c32Case) bool) {
